@@ -209,6 +209,12 @@ def process_case(rng, tier):
     jobs.append((["cnfgen", "kcolor", "3", "complete", "4"], None))   # no randomness at all: still process independent
     for sd in ("0", "7"):
         jobs.append((["cnfshuffle", "--seed", sd], sd))
+    # input files named relative to the working directory (plain and through symbolic links; the two working
+    # directories hold identical content) — seeded change C07-6
+    for c in (["kclique", "3", "g.kthlist"], ["op", "gl.kthlist"], ["tseitin", "random", "gl.kthlist"], ["subsetcard", "bl.matrix"],
+              ["dimacs", "fl.cnf"], ["kclique", "2", "gl.kthlist", "plantclique", "3"], ["subsetcard", "b.matrix", "addedges", "1"],
+              ["peb", "dl.kthlist", "-T", "shuffle"], ["kcolor", "3", "sub/deep.kthlist"]):
+        jobs.append((["cnfgen", "--seed", str(seeds[-1])] + c, seeds[-1]))
 
     def oracle():
         tmp = tempfile.mkdtemp(prefix="verif-c07-")
@@ -216,6 +222,20 @@ def process_case(rng, tier):
             d1, d2 = os.path.join(tmp, "a"), os.path.join(tmp, "b")
             os.makedirs(d1)
             os.makedirs(d2)
+            for d in (d1, d2):
+                os.makedirs(os.path.join(d, "data"))
+                os.makedirs(os.path.join(d, "sub"))
+                files = {"g.kthlist": "c g\n4\n1 : 2 3 0\n2 : 1 3 4 0\n3 : 1 2 0\n4 : 2 0\n",
+                         "b.matrix": "3 4\n1 1 0 0\n0 1 1 0\n1 0 1 1\n", "f.cnf": "p cnf 3 2\n1 -2 0\n2 3 0\n",
+                         "d.kthlist": "4\n1 : 0\n2 : 1 0\n3 : 1 2 0\n4 : 3 0\n"}
+                for name, text in files.items():
+                    with open(os.path.join(d, "data", name), "w") as fh:
+                        fh.write(text)
+                    with open(os.path.join(d, name), "w") as fh:
+                        fh.write(text)
+                    base, ext = name.split(".")
+                    os.symlink(os.path.join("data", name), os.path.join(d, base + "l." + ext))
+                os.symlink(os.path.join("..", "data", "g.kthlist"), os.path.join(d, "sub", "deep.kthlist"))
 
             def run(job):
                 argv, s = job
